@@ -19,6 +19,7 @@ import (
 	gsmsg "github.com/ipfs/go-graphsync/message"
 	gsnet "github.com/ipfs/go-graphsync/network"
 	"github.com/ipfs/go-graphsync/notifications"
+	"github.com/ipfs/go-graphsync/verifhook"
 )
 
 var log = logging.Logger("graphsync")
@@ -162,6 +163,9 @@ func (mq *MessageQueue) runQueue() {
 	for {
 		select {
 		case <-mq.outgoingWork:
+			if verifhook.Enabled {
+				verifhook.Yield("messagequeue.beforeSendMessage", string(mq.p))
+			}
 			mq.sendMessage()
 		case <-mq.done:
 			select {
